@@ -126,7 +126,7 @@ def recvFields : List UStmt → List String
 /-- the receiving structure fits the sender's values where Unmarshal relies on it: a fixed array has the length of
     the sender's (in Go: both have the declared length `[n]T`; the model's environments are untyped) -/
 def receiverFits (c : Cmd) (env0 env : Env) : Bool :=
-  match bodyU c with
+  match bodyN c with
   | none => true
   | some body =>
     (recvFields body).all (fun f =>
@@ -154,7 +154,7 @@ def optTrailing (andx : Bool) : List Slot → Nat → Bool
     `c.F = 0; if WordCount == k { guard; read; advance }` only as the last parameter slot behind fixed-width slots, `k`
     being the word count the block has with it and not the one it has without (`optTrailing`). -/
 def MirrorLoops (c : Cmd) : Bool :=
-  match bodyU c with
+  match bodyN c with
   | none => false
   | some body =>
     match layoutML c.marshal, layoutUL body with
